@@ -280,7 +280,35 @@ def r20_6(ctx):
     ctx.ob("R20.6", "deep-clone-preserves-child-order", bad is None and feeds >= 2, bad or "%d feeding sites, all reversed for a list consumed by pop()" % feeds, "rcdom Node::clone_with_subtree")
 
 
+def r20_7(ctx):
+    """append_based_on_parent_node(element, prev_element, child): the child goes before `element` iff `element` has a parent - any
+    parent (an element, a document, template contents) - else it is appended to `prev_element`; nothing else decides"""
+    key, pcs = nfq.cells(ctx, AREA, "[TreeSink]::append_based_on_parent_node")
+    fe = nfq.feasible(pcs)
+    bad = None
+    seen = set()
+    for pc in fe:
+        g = pc["guards"]
+        other = [k for k in g if not re.fullmatch(r"p1\.parent(\.take\(\)|\.get\(\)|\(\))?( matches Some\(_\))?(#\d+)?|p1\.parent\(\) matches Some\(_\)(#\d+)?", k)]
+        has = [v for k, v in g.items() if k not in other]
+        names = nfq.names(pc)
+        if other:
+            bad = "whether the child goes before the element depends on more than the element having a parent: %s" % [k[:70] for k in other][:2]
+            continue
+        if len(has) != 1:
+            bad = "the parent test is not made exactly once on a path"
+            continue
+        want = "self.append_before_sibling" if has[0] else "self.append"
+        seen.add(has[0])
+        if [a for a in names if a in ("self.append_before_sibling", "self.append")] != [want]:
+            bad = "with has-parent = %s the function calls %s" % (has[0], [a for a in names if a.startswith("self.append")])
+    ctx.ob("R20.7", "append_based_on_parent_node-decides-on-parent-only", bad is None and seen == {True, False}, bad or "has a parent -> append_before_sibling(element, child); no parent -> append(prev_element, child)",
+           "rcdom RcDom::append_based_on_parent_node")
+
+
 def run(ctx):
+    ctx.rule("R20.7", "append_based_on_parent_node: before the element iff it has any parent, else under the previous element")
+    ctx.guard("R20.7", "based-on-parent", lambda: r20_7(ctx))
     ctx.rule("R20.6", "clone_with_subtree: children are fed to the LIFO work list in reverse at every site, so the copy keeps document order at every depth")
     ctx.guard("R20.6", "clone-order", lambda: r20_6(ctx))
     ctx.rule("R20.5", "child vectors are changed only by order-preserving operations; reparent_children appends to the new parent")
